@@ -108,13 +108,43 @@ func lockOp(c *ssa.CallCommon) (op string, key string) {
 	if n.Obj().Name() != "Mutex" && n.Obj().Name() != "RWMutex" {
 		return "", ""
 	}
+	key = path(c.Args[0])
+	if fa, ok := c.Args[0].(*ssa.FieldAddr); ok {
+		key += "#" + ownerName(fa.X.Type()) + "." + fieldName(fa.X.Type(), fa.Field)
+	}
 	switch f.Name() {
 	case "Lock", "RLock":
-		return "lock", path(c.Args[0])
+		return "lock", key
 	case "Unlock", "RUnlock":
-		return "unlock", path(c.Args[0])
+		return "unlock", key
 	}
 	return "", ""
+}
+
+// A lock key is "<access path>#<StructType>.<mutexField>": the path identifies
+// the object, the suffix the kind of lock (so that c.mu of a connection and
+// c.mu of a process are never confused).
+func ownerName(t types.Type) string {
+	if pt, ok := t.Underlying().(*types.Pointer); ok {
+		t = pt.Elem()
+	}
+	if nt, ok := t.(*types.Named); ok {
+		return nt.Obj().Name()
+	}
+	return "?"
+}
+
+// lockKind returns the "<StructType>.<mutexField>" part of a lock key.
+func lockKind(key string) string {
+	if i := strings.IndexByte(key, '#'); i >= 0 {
+		return key[i+1:]
+	}
+	return ""
+}
+
+// lockKeyFor builds the key of mutex field mu of the object denoted by base.
+func lockKeyFor(base ssa.Value, mu string) string {
+	return path(base) + "." + mu + "#" + ownerName(base.Type()) + "." + mu
 }
 
 func NewLockInfo(p *Prog, must bool) *LockInfo {
@@ -392,10 +422,14 @@ func translate(held lockset, c *ssa.CallCommon, callee *ssa.Function) lockset {
 		ap := path(a)
 		pn := callee.Params[i].Name()
 		for k := range held {
-			if k == ap {
-				out[pn] = true
-			} else if strings.HasPrefix(k, ap+".") {
-				out[pn+k[len(ap):]] = true
+			kp, kind := k, ""
+			if j := strings.IndexByte(k, '#'); j >= 0 {
+				kp, kind = k[:j], k[j:]
+			}
+			if kp == ap {
+				out[pn+kind] = true
+			} else if strings.HasPrefix(kp, ap+".") {
+				out[pn+kp[len(ap):]+kind] = true
 			}
 		}
 	}
